@@ -36,7 +36,12 @@ def sig_match(f, inputs, output):
     return True
 
 
+# name used only to break a tie when several functions have the role's impl type and signature
+ROLE_HINTS = {}
+
+
 def method(fx, role, self_ty=None, inputs=None, output=None, hint=None, kind=("method", "fn"), trait=None):
+    hint = hint or ROLE_HINTS.get(role)
     cands = []
     for f in fx.fns.values():
         if f["kind"] not in kind:
